@@ -15,6 +15,7 @@ RULE = (
     "whose map evaluates items in a scripted permutation, an executor-style object (submit+map) whose futures complete out of order, a real "
     "ThreadPoolExecutor(4), pool=1, and (thorough tier, and 1 quick case in 6) a real worker pool of 2, 3 or 5 processes with a batch size it does or does not divide - and compares. "
     "Non-trivial = >=2 modes compared over >=3 annealing iterations. distinct = case hash."
+    ' The *_full check draws a complete configuration with vlib.cfggen: every constructor option gets a generated value in every case (d, evaluation mode incl. one/two blobs, zero-likelihood region, narrow target, kernel, resampler, clustering, normalize, cluster_every, n_max_clusters, split_threshold, ess_ratio, ESS/volume-variation metric, n_particles incl. odd, n_steps/n_max_steps, periodic/reflective indices, pool kind, extra likelihood args/kwargs, random_state int/NumPy-int/None); the oracle is the same.'
 )
 ASSUMPTIONS = [
     "the instrumented likelihood is pointwise bit-identical in all modes by construction",
@@ -121,5 +122,65 @@ def execute(case, force_real=False):
                        "iterations": len(ref[0]["history"]["beta"])}}
 
 
-CHECKS = [Check("modes", cases, execute, n={"quick": 64, "thorough": 800}, shards={"quick": 16, "thorough": 16},
+def full_cases():
+    from vlib import cfggen
+
+    return cfggen.full_config(modes=("scalar", "scalar", "blobs", "blobs2"), pools=(None,))
+
+
+def run_full(case, mode, pool):
+    from vlib import cfggen
+
+    c2 = dict(case, mode=mode)
+    t = cfggen.make_target(c2)
+    np.random.seed(case["rs_value"] % 2**31)
+    pobj = pool
+    if pool == "threads":
+        from concurrent.futures import ThreadPoolExecutor
+
+        pobj = ThreadPoolExecutor(3)
+    s, _ = cfggen.build(c2, target=t, pool=pobj)
+    core = core_of(s)
+    st_ = core.state
+    label = f"mode={mode},pool={pool!r}"
+
+    def at_commit(*a, **k):
+        if pool != "threads" and int(st_.get_current("calls")) != t.n_points:
+            raise Violation(f"[{label}] iteration {st_.get_current('iter')}: reported calls={st_.get_current('calls')} but the likelihood "
+                            f"was evaluated at {t.n_points} points", sig={"kind": "calls-miscounted"})
+
+    wrap_method(st_, "commit_current_to_history", before=at_commit)
+    with quiet():
+        lib_call(s.run, n_total=2 * case["n_particles"], progress=False, what=f"Sampler.run [{label}]")
+    o = lib_call(s.posterior, trim_importance_weights=False, what="posterior")
+    if hasattr(pobj, "shutdown"):
+        pobj.shutdown()
+    return history_snapshot(st_), np.asarray(o[1]), float(s.evidence()[0])
+
+
+def execute_full(case):
+    """the same differential over complete random configurations (vlib.cfggen): every constructor option gets a generated value"""
+    modes = [(case["mode"], None), (case["mode"], "permuting"), (case["mode"], 1), (case["mode"], "executor"), (case["mode"], "threads")]
+    if case["mode"] == "scalar":
+        modes[1:1] = [("vector", None), ("vector", "permuting")]
+    ref = None
+    for mode, pool in modes:
+        snap, w, z = run_full(case, mode, pool)
+        if ref is None:
+            ref = (snap, w, z, f"mode={mode},pool={pool!r}")
+            continue
+        diff = snapshots_equal(ref[0], snap, keys=KEYS)
+        if diff is not None or not np.array_equal(ref[1], w) or ref[2] != z:
+            raise Violation(f"same seed, pointwise identical likelihood: [{ref[3]}] and [mode={mode},pool={pool!r}] differ "
+                            f"({diff or 'weights/evidence'}; log-evidence {ref[2]!r} vs {z!r})", sig={"kind": "mode-dependent"})
+    n_anneal = sum(1 for b in ref[0]["history"]["beta"] if b > 0)
+    from vlib import cfggen
+
+    return {"nontrivial": n_anneal >= 3, "classes": ["mode:" + case["mode"], "metric:" + case["metric"], "extra:" + case["ll_extra"],
+                                                     "rs:%s" % case["random_state"]], "sample": cfggen.summary(case)}
+
+
+CHECKS = [Check("modes_full", full_cases, execute_full, n={"quick": 48, "thorough": 800}, shards={"quick": 16, "thorough": 16},
+                shrink={"quick": False, "thorough": True}),
+          Check("modes", cases, execute, n={"quick": 64, "thorough": 800}, shards={"quick": 16, "thorough": 16},
                 shrink={"quick": False, "thorough": True})]
